@@ -11,10 +11,25 @@
      (breakpad-symbols walker.rs eval_cfi_expr: u64 wrapping arithmetic, `^` = read of one
      C::Register, set_cfa/set_ra/set_caller_register = C::Register::try_from). *)
 From RM Require Import C08.Model C05.Model.
+From RM Require C06.Model.
 Open Scope Z_scope.
 
+(* A module's symbol file: FUNC record + one STACK CFI INIT record, whose rules are either the small
+   family above (evaluated by [cfi_family]) or arbitrary rule text with optional `STACK CFI <addr>` delta
+   lines ([s_text]; evaluated by C06's model of walk_with_stack_cfi over the real CfiStackWalker, see
+   [cfi_text]). *)
 Record symrule := { s_func_lo : Z; s_func_size : Z; s_cfi_lo : Z; s_cfi_size : Z;
-                    s_cfa_off : Z; s_ra_kind : Z; s_ra_arg : Z; s_fp_off : option Z }.
+                    s_cfa_off : Z; s_ra_kind : Z; s_ra_arg : Z; s_fp_off : option Z;
+                    s_text : option (list Z * list (Z * list Z)) }.
+
+(* register names <-> the byte strings of C06 *)
+Fixpoint bytes_of_name_aux (fuel : nat) (n : Z) (acc : list Z) : list Z :=
+  match fuel with
+  | O => acc
+  | S k => if n <=? 0 then acc else bytes_of_name_aux k (n / 256) (n mod 256 :: acc)
+  end.
+Definition bytes_of_name (n : Z) : list Z := bytes_of_name_aux 32 n [].
+Definition name_of_bytes (b : list Z) : Z := fold_left (fun acc c => acc * 256 + c) b 0.
 
 Definition modspec := (Z * Z * option symrule)%type.     (* base, size, symbols *)
 
@@ -89,14 +104,85 @@ Definition cfi_family (callee : frame) (gc : option frame) (fwd : list Z) : opti
   | _ => None
   end.
 
+(* ---- arbitrary STACK CFI text: C06's walk_frame_cfi over the real CfiStackWalker ---------------
+   [regnames] = CpuContext::REGISTERS of the context type, [lrname] = the canonical name of the link
+   register slot of this model's [regs] (none on x86/amd64).  The registers other than ip/sp/fp/lr live
+   in [r_gp], in REGISTERS order. *)
+Variable regnames : list Z.
+Variable lrname : option Z.
+
+Definition fp_canon : Z := memoize (a_fp_name a).
+Definition special_names : list Z :=
+  [a_cfi_ip_name a; a_cfi_sp_name a; fp_canon] ++ match lrname with Some l => [l] | None => [] end.
+Definition gp_names : list Z := filter (fun n => negb (memb n special_names)) regnames.
+
+Fixpoint index_of (n : Z) (l : list Z) (i : nat) : option nat :=
+  match l with [] => None | x :: t => if x =? n then Some i else index_of n t (S i) end.
+Definition slot_value (r : regs) (n : Z) : Z :=
+  if n =? a_cfi_ip_name a then r_ip r
+  else if n =? a_cfi_sp_name a then r_sp r
+  else if n =? fp_canon then r_fp r
+  else if (match lrname with Some l => n =? l | None => false end) then r_lr r
+  else match index_of n gp_names 0 with Some i => nth i (r_gp r) 0 | None => 0 end.
+
+Definition arch6 : C06.Model.arch :=
+  C06.Model.mkArch (a_pw a) (map bytes_of_name regnames)
+    (map (fun pr => (bytes_of_name (fst pr), bytes_of_name (snd pr))) (a_aliases a))
+    (bytes_of_name (a_cfi_sp_name a)) (bytes_of_name (a_cfi_ip_name a)) [].
+
+Definition cfi_text (callee : frame) (gc : option frame) (fwd : list Z) : option (regs * list Z) :=
+  match mod_of (f_instr callee) with
+  | Some (b, _, Some s) =>
+      match s_text s with
+      | None => None
+      | Some (init, deltas) =>
+          if f_instr callee <? b then None else
+          let addr := f_instr callee - b in
+          let r := f_regs callee in
+          let E := C06.Model.mkEnv
+                     (fun nb => match C06.Model.memoize arch6 nb with
+                                | None => None
+                                | Some cb => if reg_valid a (name_of_bytes nb) (f_valid callee)
+                                             then Some (view a (slot_value r (name_of_bytes cb))) else None
+                                end)
+                     (fun ptr => read mem (a_pw a) ptr)
+                     (f_instr callee) (match gc with Some _ => true | None => false end) 0 in
+          let st0 := C06.Model.mkR (fun nb => slot_value r (name_of_bytes nb)) (fun nb => memb (name_of_bytes nb) fwd) in
+          match C06.Model.walk_frame_cfi (C06.Model.real_ops arch6) Debug E
+                  (C06.Model.mkCfi (s_cfi_lo s, init) (s_cfi_size s) deltas) addr st0 with
+          | Ret (Some st) =>
+              let get := fun n => C06.Model.r_ctx st (bytes_of_name n) in
+              Some ({| r_ip := get (a_cfi_ip_name a); r_sp := get (a_cfi_sp_name a); r_fp := get fp_canon;
+                       r_lr := match lrname with Some l => get l | None => r_lr r end;
+                       r_gp := map get gp_names |},
+                    filter (fun n => C06.Model.r_valid st (bytes_of_name n)) regnames)
+          | _ => None
+          end
+      end
+  | _ => None
+  end.
+
+Definition cfi_any (callee : frame) (gc : option frame) (fwd : list Z) : option (regs * list Z) :=
+  match mod_of (f_instr callee) with
+  | Some (_, _, Some s) => match s_text s with Some _ => cfi_text callee gc fwd | None => cfi_family callee gc fwd end
+  | _ => None
+  end.
+
 Definition run_profile (fx : fixes) (p : profile) (os : Z) (fuel : nat) (r : regs) (v : validity) : outcome (list frame) :=
-  walk_stack fx p a os mem d_module_at d_max_module_addr cfi_family d_instr_valid fuel r v.
+  walk_stack fx p a os mem d_module_at d_max_module_addr cfi_any d_instr_valid fuel r v.
 End Case.
 
 Definition arch_of (id : Z) : arch :=
   if id =? 0 then x86 else if id =? 1 then amd64 else if id =? 2 then arm
   else if id =? 3 then arm64 else if id =? 4 then mips32 else if id =? 5 then mips64
   else arm64.   (* 6 = arm64_old: same walker, other context struct in the harness *)
+
+Definition registers_of (id : Z) : list Z :=
+  if id =? 0 then x86_registers else if id =? 1 then amd64_registers else if id =? 2 then arm_registers
+  else if (id =? 4) || (id =? 5) then mips_registers else arm64_registers.
+Definition lrname_of (id : Z) : option Z :=
+  if (id =? 0) || (id =? 1) then None
+  else if (id =? 4) || (id =? 5) then Some 29281 (* ra *) else Some 27762 (* lr *).
 
 Definition trust_code (t : trust) : Z :=
   match t with TNone => 0 | TScan => 1 | TCfiScan => 2 | TFramePointer => 3 | TCfi => 4 | TPreWalked => 5 | TContext => 6 end.
@@ -106,7 +192,7 @@ Definition run_case (fixed : bool) (debug : bool) (archid os : Z) (r : regs) (al
            (base : Z) (bytes : list Z) (mods : list modspec) (extra_fuel : Z) : Z * list frame :=
   let mem := {| m_base := base; m_bytes := bytes |} in
   let fx := if fixed then current_code else code_before_fixes in
-  match run_profile (arch_of archid) mem mods fx (if debug then Debug else Release) os
+  match run_profile (arch_of archid) mem mods (registers_of archid) (lrname_of archid) fx (if debug then Debug else Release) os
                     (fuel_for mem + Z.to_nat extra_fuel)%nat r (if all_valid then VAll else VSome names) with
   | Ret fs => (0, fs)
   | Panic t => (1, [])
